@@ -110,5 +110,15 @@ PROPS['C02'] = dict(
     domains=['build'],
     n=dict(quick=3000, thorough=120000),
     theorems=[('Properties.C02', [])],
+    kinds={'panic', 'untruthful-length', 'untruthful-block-digest', 'untruthful-payload-digest', 'bad-record-id', 'stale-length-after-wfblock-repair', 'id-repeats'},
+    rule='TODO', level_text='TODO', level_note='TODO',
+)
+
+PROPS['C05'] = dict(
+    id='C05',
+    domains=['unm', 'hparse', 'build'],
+    n=dict(quick=dict(unm=2500, hparse=1500, build=1000), thorough=dict(unm=100000, hparse=50000, build=40000)),
+    theorems=[('Properties.C05', [])],
+    kinds={'panic', 'hang', 'no-progress'},
     rule='TODO', level_text='TODO', level_note='TODO',
 )
